@@ -70,6 +70,15 @@ theorem C01_glr_model_forest_sound (g : Grammar) (T : Table) (inp : Input) (hw :
     IsParseOf g inp t :=
   (GLR.parseGLR_forest_sound hw hidem true lexDis fuel sF h a ha l hl t ht).2 rfl
 
+/-- The executable form used on implementation trees: a tree that the driver finds in the packed
+forest of the model's accepting run (`forestHasTree`, evaluated on every tree taken from the
+implementation's forest) is a parse tree of the input. -/
+theorem C01_tree_found_in_glr_model_forest_is_parse (g : Grammar) (T : Table) (inp : Input) (hw : T.wf g = true)
+    (hidem : ∀ p, inp.skip (inp.skip p) = inp.skip p) (lexDis : Bool) (fuel : Nat) (sF : GLR.GState)
+    (h : GLR.parseGLR g T inp true lexDis fuel = .forest sF) (t : Tree) (ht : GLR.forestHasTree sF t = true) :
+    IsParseOf g inp t :=
+  (GLR.forestHasTree_parse hw hidem true lexDis fuel sF h t ht).2 rfl
+
 /-- The same on the data the driver decodes: both hypotheses are the Boolean checks the driver
 evaluates for every table and input of a run (`wf`, `skipidem`). -/
 theorem C01_glr_model_sound_on_decoded_data (g : Grammar) (states : Array StateData) (terms : Array (Nat × Bool))
